@@ -414,3 +414,112 @@ func sortedKeys(m map[string]bool) []string {
 }
 
 var _ = strings.Join
+
+// C04.R9 — a handshake timer is stopped whenever the state it belongs to is left.
+func init() {
+	register(&Rule{ID: "C04.R9", Props: []string{"C04", "C19"}, Engine: "E5+E3",
+		Title:   "handshake timers follow the state: specialising every entry point on state=COOKIE-WAIT (T1-init) and state=COOKIE-ECHOED (T1-cookie), each transition out of that state is accompanied by a stop/close of that state's timer on the same execution (in the same function the stop dominates the transition or is passed on every path after it), so an established association never keeps retransmitting INIT/COOKIE-ECHO nor reports a handshake failure later",
+		MinInst: 4,
+		Run: func(c *RuleCtx) {
+			e, err := c.P.States()
+			if err != nil {
+				panic(unresolved{err.Error()})
+			}
+			stopFns := map[*ssa.Function]bool{c.Fn("rtxTimer.stop"): true, c.Fn("rtxTimer.close"): true}
+			ks := keyer{}
+			// roots: each inbound chunk handler on its own (so that a stop made by another
+			// handler does not count), then every other entry point; transitions inside
+			// the handlers' region are judged under the handler roots only.
+			var roots, handlers []*ssa.Function
+			isHandler := map[*ssa.Function]bool{}
+			for _, h := range c.chunkHandlers() {
+				handlers = append(handlers, c.Fn(h))
+				isHandler[c.Fn(h)] = true
+			}
+			roots = append(roots, handlers...)
+			handlerRegion := c.P.ReachableAvoiding(handlers, nil)
+			for _, r := range c.P.EntryPoints() {
+				if !isHandler[r] {
+					roots = append(roots, r)
+				}
+			}
+			for _, pr := range []struct{ state, timer string }{{"cookieWait", "t1Init"}, {"cookieEchoed", "t1Cookie"}} {
+				S := e.Set(pr.state)
+				tf := c.field("Association", pr.timer)
+				isStop := func(in ssa.Instruction) bool {
+					ci, ok := in.(ssa.CallInstruction)
+					if !ok {
+						return false
+					}
+					sc := ci.Common().StaticCallee()
+					return sc != nil && stopFns[sc] && len(ci.Common().Args) > 0 && IsLoadOf(tf)(ci.Common().Args[0])
+				}
+				for _, root := range roots {
+					if root.Signature.Recv() == nil && root.Parent() == nil {
+						continue
+					}
+					run := e.Run(root, S)
+					var stops []ssa.Instruction
+					for in := range run.Reach {
+						if isStop(in) {
+							stops = append(stops, in)
+						}
+					}
+					for _, t := range run.Transitions() {
+						if t.From&S == 0 || t.To&S != 0 {
+							continue
+						}
+						if !isHandler[root] && (handlerRegion[t.Site.Parent()] != nil || isHandler[t.Site.Parent()]) && c.P.ReachableAvoiding([]*ssa.Function{root}, isHandler)[t.Site.Parent()] == nil {
+							continue // reached only through a chunk handler: judged under that handler's own root
+						}
+						key := ks.key(fmt.Sprintf("stop-%s-on-leaving-%s@%s:%s", pr.timer, pr.state, c.P.FuncName(root), c.P.FuncName(t.Site.Parent())))
+						if len(stops) == 0 {
+							c.Fail(key, c.Pos(t.Site), fmt.Sprintf("entry point %s leaves %s (to %s) without ever stopping %s: the timer keeps firing in the new state", c.P.FuncName(root), pr.state, e.String(t.To), pr.timer))
+							continue
+						}
+						// path check inside one function: find the instruction in the stop's function that leads to the transition
+						ok, why := false, ""
+						for _, k := range stops {
+							fn := k.Parent()
+							var via []ssa.Instruction
+							if t.Site.Parent() == fn {
+								via = append(via, t.Site)
+							} else {
+								forEachInstr(fn, func(in ssa.Instruction) {
+									ci, isCall := in.(ssa.CallInstruction)
+									if !isCall {
+										return
+									}
+									if sc := ci.Common().StaticCallee(); sc != nil && c.P.inPkg(sc) && run.Funcs[sc] && (sc == t.Site.Parent() || c.P.ReachableAvoiding([]*ssa.Function{sc}, nil)[t.Site.Parent()] != nil) {
+										if st, reached := run.Reach[in]; reached && st&S != 0 {
+											via = append(via, in)
+										}
+									}
+								})
+							}
+							if len(via) == 0 {
+								// the stop is in another function than the one leading to the transition: accept on reachability
+								ok = true
+								continue
+							}
+							all := true
+							for _, v := range via {
+								if InstrDominates(k, v) {
+									continue
+								}
+								if okAfter, _ := MustPass(v, func(x ssa.Instruction) bool { return x == k }, nil); okAfter {
+									continue
+								}
+								all = false
+								why = fmt.Sprintf("%s at %s neither dominates nor follows on all paths the transition at %s", pr.timer+".stop", c.Pos(k), c.Pos(v))
+							}
+							if all {
+								ok = true
+							}
+						}
+						c.Check(ok, key, c.Pos(t.Site), fmt.Sprintf("%s stopped on the execution that leaves %s", pr.timer, pr.state), why)
+					}
+				}
+			}
+		}})
+}
